@@ -32,6 +32,12 @@ if rnd % 3 == 0:
         "a defect that only shows through an ENTRY POINT or OPTION that is rarely used (a second constructor, a convenience wrapper, a non-default formatter or option value, loading from files instead of strings, a kept object used twice)",
         "a defect in the ORDER in which things happen or are visited: evaluation order of operands or arguments, order of passes, order of items in a collection, first-versus-last wins, the order in which two goroutines or two calls get to shared state",
     ]
+if rnd % 4 == 1 and rnd > 12:
+    AIMS = [
+        "a defect that a PERFORMANCE OPTIMISATION would introduce: a fast path for the common case whose condition is slightly too wide, pre-sizing or reusing a buffer, avoiding a copy, memoising a result under a key that misses one of its inputs, an early exit, batching several writes into one",
+        "a defect in a PUBLIC API DETAIL that the library's own callers never exercise: an exported helper or method used directly, the zero value of an exported type, a nil or empty argument, calling two exported functions in an unusual but allowed order, an exported field set by the application",
+        "a defect that depends on the ENVIRONMENT or on the FORM of the input rather than its content: CRLF line ends, a byte order mark, a missing final newline, file names and directory order, very long lines, the time zone or the current time, GOMAXPROCS, map iteration order",
+    ]
 os.makedirs("/tmp/wt", exist_ok=True)
 for line in open(os.path.join(root, "properties.jsonl")):
     p = json.loads(line)
